@@ -559,11 +559,11 @@ type c31state struct {
 }
 
 type c31vm struct {
-	sc                             *c31scenario
-	intN, chanN, lockN, ghostN     []string
-	intI, chanI, lockI, ghostI     map[string]int
-	condLock                       map[string]string
-	maxStates                      int
+	sc                         *c31scenario
+	intN, chanN, lockN, ghostN []string
+	intI, chanI, lockI, ghostI map[string]int
+	condLock                   map[string]string
+	maxStates                  int
 }
 
 func c31index(names []string) map[string]int {
